@@ -116,10 +116,10 @@ type caseRun struct {
 	spec       caseSpec
 	class      string
 	nontrivial bool
-	line       string                             // model input ("" = none)
-	cmp        func(model string) []vh.Mismatch   // relation R against the model's output line
-	mism       []vh.Mismatch                      // property predicate failures (implementation alone)
-	pk         string                             // public key (hex) when the run completed
+	line       string                           // model input ("" = none)
+	cmp        func(model string) []vh.Mismatch // relation R against the model's output line
+	mism       []vh.Mismatch                    // property predicate failures (implementation alone)
+	pk         string                           // public key (hex) when the run completed
 	note       string
 	dur        time.Duration
 }
@@ -806,7 +806,7 @@ func buildCases(a vh.Args, groups []*groupT) []caseSpec {
 						if thorough {
 							doG = n <= 4 || (fi+kind+n+rep)%len(useGroups) == gi
 						} else {
-							doG = (n-2) == (fi+kind+gi+rep)%3
+							doG = (n - 2) == (fi+kind+gi+rep)%3
 						}
 						if doG {
 							add(caseSpec{proto: "G", group: g.name, pol: pol, comp: string(fiatshamir.Name), mode: "rounds"})
